@@ -32,15 +32,29 @@ def scenario(ctx, i, jfa=True):
             s["n"] = np.maximum(s["n"], 0.05)  # every component gets some mass over the training set
             s["f"] = np.where(np.isfinite(mean), mean, 0.0) * s["n"][:, None]
     sc["iters"] = int(r.integers(1, 4))
+    sc["interleave"] = int(r.integers(0, 10**6)) if r.random() < 0.5 else None
     return sc
 
 
 def flat(sc):
+    """the training list and its labels; with sc["interleave"] the sessions of the classes are merged in a random order that
+    keeps each class's own sessions in their relative order (labels need not arrive grouped by class)"""
     X, y = [], []
     for k, cls in enumerate(sc["classes"]):
         for s in cls:
             X.append(fagen.mk_stats(sc, s))
             y.append(k)
+    if sc.get("interleave") is not None:
+        rr = np.random.default_rng(int(sc["interleave"]))
+        heads = [0] * len(sc["classes"])
+        offs = np.concatenate([[0], np.cumsum([len(c) for c in sc["classes"]])])
+        order = []
+        remaining = [k for k, c in enumerate(sc["classes"]) for _ in c]
+        rr.shuffle(remaining)
+        for k in remaining:
+            order.append(int(offs[k]) + heads[k])
+            heads[k] += 1
+        X, y = [X[i] for i in order], [y[i] for i in order]
     return X, y
 
 
@@ -93,7 +107,7 @@ def correspondence(ctx):
         ctx.case([core.tolist(sc["U"]), core.tolist([[s["f"] for s in c] for c in sc["classes"]]), sc["iters"]],
                  nontrivial=len(sc["classes"]) >= 2 and max(len(c) for c in sc["classes"]) >= 2,
                  sample={"machine": "jfa" if sc["jfa"] else "isv", "C": C, "D": D, "rU": rU, "rV": rV, "sessions_per_class": [len(c) for c in sc["classes"]], "iters": sc["iters"]})
-        inp = {k: sc[k] for k in ("C", "D", "rU", "rV", "jfa", "w", "m", "v", "U", "V", "Dd", "classes", "iters")}
+        inp = {k: sc[k] for k in ("C", "D", "rU", "rV", "jfa", "w", "m", "v", "U", "V", "Dd", "classes", "iters", "interleave")}
         im = core.impl(lambda: impl_first_steps(sc))
         if isinstance(im, core.ImplError):
             bad.append({"op": "fa_train:jfa_fit" if sc["jfa"] else "fa_train:isv_fit", "input": inp, "impl": repr(im)})
@@ -225,7 +239,7 @@ def search(ctx):
         f = oracle(sc, 3 if ctx.tier == "quick" else 6, per_class)
         if f and f["sig"] not in seen:
             seen.add(f["sig"])
-            f["input"] = {**{k: sc[k] for k in ("C", "D", "rU", "rV", "jfa", "w", "m", "v", "U", "V", "Dd", "classes", "iters")}, "per_class": per_class}
+            f["input"] = {**{k: sc[k] for k in ("C", "D", "rU", "rV", "jfa", "w", "m", "v", "U", "V", "Dd", "classes", "iters", "interleave")}, "per_class": per_class}
             fails.append(f)
     return fails
 
